@@ -51,6 +51,7 @@ func runC19(c *Ctx) {
 	c.c19StreamStops()
 	c.c19StreamCurrentPage()
 	c.c19StreamGetNext()
+	c.c19GraceFromDryUp()
 }
 
 // errDeadRule (E9): E1 looks at returns that lie wholly on the failing side of a test. A failure can also vanish without
@@ -1131,4 +1132,63 @@ func (c *Ctx) c19StreamGetNext() {
 	})
 	c.check(asksOwn && asksBase == "", "E12", key, c.pos(f.Pos()), "the stream paginator's GetNext consults its own HasNext",
 		"the stream paginator's GetNext consults the embedded paginator's HasNext ("+asksBase+"), which never follows the future of the current page: GetNext called without HasNext at the end of a page returns 'not found' although items of future pages are to come")
+}
+
+// c19GraceFromDryUp (E13): "keeps yielding items of future pages until it has been told the stream is drying up and the grace
+// period has elapsed". The grace period is measured from the instant kept in timeReachLast. Whatever marks the stream as
+// running dry (stores true into runningOut) also sets that instant — otherwise the period is counted from the consumer's
+// last look at the stream, and a consumer that was idle for longer sees the stream end the moment it is marked.
+func (c *Ctx) c19GraceFromDryUp() {
+	c.rule("E13", "the function that marks the stream as running dry also records the instant the grace period is counted from", 1)
+	n := 0
+	for _, f := range c.srcFuncs("collection/pagination") {
+		marks := false
+		var site ssa.Instruction
+		stamps := false
+		allInstrs(f, func(in ssa.Instruction) {
+			cl, ok := in.(*ssa.Call)
+			if !ok || len(cl.Call.Args) == 0 {
+				return
+			}
+			n := calleeFull(&cl.Call)
+			fieldOf := func(v ssa.Value) string {
+				u, ok := v.(*ssa.UnOp)
+				if !ok {
+					return ""
+				}
+				fa, ok := u.X.(*ssa.FieldAddr)
+				if !ok {
+					return ""
+				}
+				if so := structOf(fa.X.Type()); so != nil {
+					return so.Field(fa.Field).Name()
+				}
+				return ""
+			}
+			switch {
+			case strings.HasSuffix(n, "atomic.Bool).Store") || strings.HasSuffix(n, "atomic.Bool).Swap") || strings.HasSuffix(n, "atomic.Bool).CompareAndSwap") || strings.HasSuffix(n, "atomic.Bool).CAS"):
+				if fieldOf(cl.Call.Args[0]) == "runningOut" {
+					last := cl.Call.Args[len(cl.Call.Args)-1]
+					if b, isB := constBool(last); isB && b {
+						marks = true
+						site = cl
+					}
+				}
+			case strings.HasSuffix(n, "atomic.Time).Store"):
+				if fieldOf(cl.Call.Args[0]) == "timeReachLast" {
+					stamps = true
+				}
+			}
+		})
+		if !marks {
+			continue
+		}
+		n++
+		c.FuncsSeen[fname(f)] = true
+		c.check(stamps, "E13", fname(f)+"/grace-period-starts-here", c.ipos(site), "the instant the grace period is counted from is recorded where the stream is marked",
+			fname(f)+" marks the stream as running dry without recording when: the grace period is then counted from the last time HasNext() looked at the stream, and for a consumer that had been idle for longer than the period HasNext() answers false at once — the future page, and the items already on it, are never looked at")
+	}
+	if n == 0 {
+		c.violate("E13", "collection/pagination/running-dry-never-marked", "", "nothing marks the stream as running dry any more")
+	}
 }
